@@ -45,6 +45,11 @@ var clientKinds = []string{"tm", "bsc", "eth", "tss"}
 // valid follow-up headers.
 type counterparty struct {
 	kind string
+	// Tendermint: heights the relayer skipped (the chain produced them, the client never saw them) with the
+	// height to trust when one of them is filled in later
+	tmSkipped []int64
+	tmAnchor  map[int64]int64
+	tmMode    int // next header: 0 next block, 1 skip one block first, 2 fill in a skipped block
 	tm   *tmStub
 	bsc  *bscWorld
 	eth  *ethWorld
@@ -430,7 +435,34 @@ func (w *lcWorld) nextHeader(cp *counterparty, asMsg bool) exported.Header {
 	switch cp.kind {
 	case "tm":
 		s := cp.tm
+		mode := cp.tmMode
+		cp.tmMode = 0
+		if mode == 2 && len(cp.tmSkipped) > 0 {
+			// fill in a block the relayer skipped earlier, trusting the block before the gap
+			h := cp.tmSkipped[0]
+			cp.tmSkipped = cp.tmSkipped[1:]
+			b, tr := s.blocks[h], s.blocks[cp.tmAnchor[h]]
+			vs, keys, _ := s.valset(b.vals)
+			nvs, _, _ := s.valset(b.next)
+			hdr := node.MakeTMHeader(s.chainID, b.h, b.t, b.appHash, vs, nvs, keys, nil)
+			hdr.TrustedHeight = clienttypes.NewHeight(s.rev, uint64(tr.h))
+			tv, _, _ := s.valset(tr.next)
+			tp, _ := tv.ToProto()
+			hdr.TrustedValidators = tp
+			w.rec.Fault("relayer.fill_in_skipped_height")
+			return hdr
+		}
 		prev := s.last()
+		if mode == 1 {
+			// the chain produces a block the relayer does not submit
+			sk := s.grow(w.r, w.now, 0, 0)
+			if cp.tmAnchor == nil {
+				cp.tmAnchor = map[int64]int64{}
+			}
+			cp.tmSkipped = append(cp.tmSkipped, sk.h)
+			cp.tmAnchor[sk.h] = prev.h
+			w.now = w.now.Add(2 * time.Second)
+		}
 		b := s.grow(w.r, w.now, 0, 0)
 		vs, keys, _ := s.valset(b.vals)
 		nvs, _, _ := s.valset(b.next)
@@ -508,6 +540,9 @@ func (w *lcWorld) opUpdate(op kernel.Op) {
 	if cl.kind == "tss" {
 		signer = w.tss
 	}
+	if cl.kind == "tm" {
+		cl.cp.tmMode = kernel.Mod(op.Arg(1), 4) % 3 // 0,1,2,0
+	}
 	hdr := w.nextHeader(cl.cp, true)
 	if hdr == nil {
 		return
@@ -572,6 +607,9 @@ func (w *lcWorld) block(n int) {
 			if ok {
 				w.rec.Probe("update.ok." + cl.kind)
 				w.rec.SetNontrivial()
+				if cl.kind == "tm" {
+					w.checkTMUpdateMetadata(tx, pre, w.clientPrefix(tx.upd.name))
+				}
 			} else if !cl.valid {
 				w.rec.Probe("update.rejected_degenerate_client")
 			} else {
@@ -689,6 +727,56 @@ func (w *lcWorld) checkProposal(p *lcProp, passed bool) {
 }
 
 // checkMetadata: the type-specific metadata a usable client of that type needs is present.
+// checkTMUpdateMetadata (C18): an accepted Tendermint update stores, for the header's own height, the
+// processing time of this block and the iteration key, and leaves the metadata of every other stored
+// height (in particular of the height a proposal installed) as it was.
+func (w *lcWorld) checkTMUpdateMetadata(tx *lcTx, pre, post map[string]string) {
+	msg := tx.msgs[0].(*clienttypes.MsgUpdateClient)
+	hdr, err := clienttypes.UnpackHeader(msg.Header)
+	if err != nil {
+		return
+	}
+	h := hdr.GetHeight()
+	hb := string(append(be(h.GetRevisionNumber()), be(h.GetRevisionHeight())...))
+	p := "clients/" + tx.upd.name + "/"
+	own := p + "consensusStates/" + hb + "/processedTime"
+	var miss []string
+	if v, ok := post[own]; !ok {
+		miss = append(miss, "processedTime")
+	} else if len(v) == 8 && beU64(v) != uint64(w.host.CurHdr.Time.UnixNano()) {
+		w.rec.Violate("C18", "update_metadata", "tm:processed_time_not_now", "update of %s to %v recorded processing time %d, the block time is %d", tx.upd.name, h, beU64(v), w.host.CurHdr.Time.UnixNano())
+	}
+	if _, ok := post[p+"iterateConsensusStates"+hb]; !ok {
+		miss = append(miss, "iterationKey")
+	}
+	if len(miss) > 0 {
+		sort.Strings(miss)
+		w.rec.Violate("C18", "metadata_missing", "update:tm:"+strings.Join(miss, "+"), "after an accepted update to %v the tm client %s lacks %v for that height", h, tx.upd.name, miss)
+	}
+	var ks []string
+	for k := range pre {
+		ks = append(ks, k)
+	}
+	sort.Strings(ks)
+	for _, k := range ks {
+		if !strings.HasSuffix(k, "/processedTime") || k == own {
+			continue
+		}
+		if v, still := post[k]; still && v != pre[k] {
+			w.rec.Violate("C18", "update_metadata", "tm:other_height_processed_time_changed", "update of %s to %v changed the processing time stored for another height (%x)", tx.upd.name, h, k[len(p):])
+			break
+		}
+	}
+}
+
+func beU64(s string) uint64 {
+	var v uint64
+	for i := 0; i < len(s) && i < 8; i++ {
+		v = v<<8 | uint64(s[i])
+	}
+	return v
+}
+
 func (w *lcWorld) checkMetadata(p *lcProp, post map[string]string) {
 	pre := "clients/" + p.name + "/"
 	has := func(sub string) bool {
